@@ -370,9 +370,13 @@ def gen_ext_program(rnd: random.Random):
         seq = [("withColumn", {"new": "n1", "c": cs[0]}), ("withColumnRenamed", {"c": cs[1], "new": "r1"}), ("drop", {"cols": [cs[0]]}),
                ("distinct", {}), ("orderBy", {"cols": ["n1"]}), ("limit", {"n": 3}), ("toDF", None), ("select_exprs", None)]
         cur, ccols = a, list(cs)
+        ordered = False
         for nm, args in seq:
             if rnd.random() < 0.35:
                 continue
+            if nm == "limit" and not ordered:
+                continue          # LIMIT without a total order has no determined result
+            ordered = (nm == "orderBy")
             if nm == "withColumn":
                 ccols = ccols + ["n1"]
             elif nm == "withColumnRenamed":
@@ -380,7 +384,7 @@ def gen_ext_program(rnd: random.Random):
             elif nm == "drop":
                 ccols = [c for c in ccols if c != cs[0]]
             elif nm == "orderBy":
-                args = {"cols": [ccols[-1]]}
+                args = {"cols": list(ccols)}
             elif nm == "toDF":
                 args = {"names": [f"c{i}" for i in range(len(ccols))]}
                 ccols = list(args["names"])
